@@ -65,6 +65,74 @@ def _arrays():
             "walkers": np.array([[0.5, -0.25, 1.5], [1.0, 0.5, 0.0], [-1.0, 2.0, 0.7], [0.2, 0.1, -0.6], [2.0, -1.0, 1.0]])}
 
 
+def reload_part(ck, tier):
+    """ProbsBelong across save / load: a tempered sampler (T = 2.5) is advanced, saved, reloaded and advanced again; every stored
+    log-probability -- before and after the reload -- is the posterior at its own sample divided by T"""
+    import tempfile
+    from inference.mcmc.gibbs import GibbsChain, MetropolisChain
+    from inference.mcmc import PcaChain, HamiltonianChain
+    T = 2.5
+    n = 3
+    post = GaussPost(n)
+    lo, hi = np.full(n, -3.0), np.full(n, 4.0)
+    st, wd = np.array([0.5, -0.25, 1.5]), np.array([0.4, 0.3, 0.5])
+    makers = {
+        "GibbsChain": lambda: GibbsChain(posterior=post, start=st.copy(), widths=wd.copy(), temperature=T, display_progress=False),
+        "MetropolisChain": lambda: MetropolisChain(posterior=post, start=st.copy(), widths=wd.copy(), temperature=T, display_progress=False),
+        "PcaChain": lambda: PcaChain(posterior=post, start=st.copy(), widths=wd.copy(), bounds=(lo, hi), temperature=T, display_progress=False),
+        "HamiltonianChain": lambda: HamiltonianChain(posterior=post, grad=post.grad, start=st.copy(), bounds=(lo, hi), epsilon=0.2, temperature=T,
+                                                     display_progress=False)}
+    for cname, mk in makers.items():
+        ck.case(("reload", cname))
+        try:
+            ch = mk()
+            ch.advance(6)
+            with tempfile.TemporaryDirectory() as d:
+                path = d + "/chain.npz"
+                ch.save(path)
+                kw = {"grad": post.grad} if cname == "HamiltonianChain" else {}
+                ch2 = type(ch).load(path, posterior=post, **kw)
+            ch2.advance(6)
+            S, P = np.asarray(ch2.get_sample(burn=0), dtype=float), np.asarray(ch2.get_probabilities(burn=0), dtype=float)
+        except Exception as ex:
+            ck.violation("save / load / advance of a tempered sampler raised", {"class": cname, "error": repr(ex)[:300]}, site=f"{cname}.load")
+            continue
+        want = np.array([post(x) / T for x in S])
+        bad = [int(k) for k in range(len(P)) if not abs(P[k] - want[k]) <= 1e-12 * max(1.0, abs(want[k]))]
+        if len(P) != 13 or bad:
+            ck.violation("ProbsBelong at every index of a chain that was saved, reloaded and advanced (temperature 2.5)",
+                         {"class": cname, "length": len(P), "first_bad_index": bad[:1], "stored": [float(P[k]) for k in bad[:1]],
+                          "posterior_over_T": [float(want[k]) for k in bad[:1]], "saved_at_length": 7}, site=f"{cname}.load:ProbsBelong")
+
+
+def dtype_part(ck, tier):
+    # The abstract state has no dtype: a sampler built from whole-number inputs given as INTEGER arrays evolves exactly like the one built
+    # from the equal float arrays (same generators).  (An integer start must not turn the chain into an integer chain.)
+    for cls_name in ("GibbsChain", "MetropolisChain", "PcaChain", "HamiltonianChain", "EnsembleSampler"):
+        fl = {"start": np.array([1.0, -2.0, 3.0]), "widths": np.array([0.4, 0.3, 0.5]), "lower": np.array([-3.0, -3.0, -3.0]),
+              "upper": np.array([4.0, 4.0, 4.0]), "inv_mass": np.array([1.0, 2.0, 0.5]),
+              "walkers": np.array([[1.0, -2.0, 3.0], [1.0, 0.0, 0.0], [-1.0, 2.0, 1.0], [0.0, 1.0, -2.0], [2.0, -1.0, 1.0]])}
+        it = dict(fl, start=fl["start"].astype(int), walkers=fl["walkers"].astype(int), lower=fl["lower"].astype(int), upper=fl["upper"].astype(int))
+        ck.case(("dtype", cls_name))
+        try:
+            a, b = _mk(cls_name, fl, 77 + seed()), _mk(cls_name, it, 77 + seed())
+            for _ in range(12):
+                a[1]()
+                b[1]()
+            ra_, rb_ = a[2](), b[2]()
+            same = all(np.array_equal(np.asarray(x, dtype=float), np.asarray(y, dtype=float)) for x, y in zip(ra_, rb_))
+        except Exception as ex:
+            ck.violation("a sampler built from integer-typed whole-number inputs raised", {"class": cls_name, "error": repr(ex)[:300]},
+                         site=f"{cls_name}.__init__:dtype")
+            continue
+        if not same:
+            k = -1
+            ck.violation("a sampler built from integer-typed inputs evolves like the one built from the equal float inputs (same draws, same samples, "
+                         "stored log-probabilities belong to the stored samples)", {"class": cls_name, "last_sample_float_inputs": np.asarray(ra_[0])[k],
+                                                                                   "last_sample_integer_inputs": np.asarray(rb_[0])[k]},
+                         site=f"{cls_name}.__init__:dtype")
+
+
 def ownership_part(ck, tier):
     r = run_tlc("MC_Ownership", cfg_text=("SPECIFICATION Spec\nCONSTANTS NS = 2 MaxOps = %d Alias = FALSE\nINVARIANT UserArraysUnchanged\n"
                                           "INVARIANT NonInterference\nINVARIANT Export\nCHECK_DEADLOCK FALSE\n" % (4 if tier == "quick" else 6)))
@@ -100,6 +168,7 @@ def ownership_part(ck, tier):
                 if not all(np.array_equal(x, y) for x, y in zip(a, b)):
                     ck.violation("NonInterference: a sampler evolves as if it were alone (same draws, same samples)",
                                  {**ident, "sampler": s}, site=f"{cls_name}.__init__:ownership")
+    dtype_part(ck, tier)
     ck.count("ownership_model", "interleavings_replayed_per_class", len(orders))
     ck.sample({"part": "ownership", "interleaving": list(orders[len(orders) // 2]), "classes": 5})
 
@@ -109,6 +178,10 @@ def pt_part(ck, tier, unforced=False):
     scen = [("c03_n3", dict(temps=[1, 2, 4], starts=[[-3, 4], [4, -3], [0, 1]], kind="gibbs", display=True, seed=s + 31, force="accept",
                             prog=[["steps", 2], ["swap"], ["return"], ["steps", 3], ["swap"], ["swap"], ["steps", 1], ["return"], ["shutdown"]],
                             delays=[0.0, 0.0, 0.0]))]
+    # a ladder that is NOT sorted by temperature (allowed, only warned about): every chain keeps its own temperature
+    scen.append(("c03_unsorted", dict(temps=[1, 4, 2], starts=[[-3, 4], [4, -3], [0, 1]], kind="gibbs", display=False, seed=s + 34, force="accept",
+                                      prog=[["steps", 1], ["swap"], ["steps", 2], ["swap"], ["steps", 1], ["return"], ["shutdown"]],
+                                      delays=[0.0, 0.0, 0.0])))
     if unforced:
         # the exchange decision itself (C01: accept with probability min(1, exp((b_i - b_j)(E_i - E_j)))) needs the real,
         # quantised draws, here placed next to the powers of two where the decision changes; four levels so that pairs two and
@@ -160,6 +233,7 @@ def run(tier):
     ensemble.run_part(ck, tier)
     hmcstep.run_part(ck, tier)
     ownership_part(ck, tier)
+    reload_part(ck, tier)
     pt_part(ck, tier)
     from harness import repotests
     repotests.run_part(ck, "C03")          # traces of the repository's own MCMC tests, judged by TestRunTrace.tla
